@@ -221,7 +221,7 @@ def write_replay(prop, case, viol, minimised):
         'repro': viol.get('repro'),
         'case': case,
     }
-    blob = json.dumps(body, indent=1, sort_keys=True, default=str)
+    blob = json.dumps(body, indent=1, default=str)   # (no sort_keys: dict order is part of a case)
     name = f'{prop}-{viol["clause"]}-{hashlib.sha1(blob.encode()).hexdigest()[:10]}.json'
     name = name.replace('/', '_')
     path = os.path.join(REPLAYS, name)
